@@ -38,6 +38,19 @@ impl Oracle for ValueOracle {
         match cx.res {
             StepRes::Got { key, real, want } => {
                 match (real, want) {
+                    (_, Err(RPanic::Either)) => {}
+                    (Err(p), Err(RPanic::Cycle)) => {
+                        let t = p.text();
+                        if !(t.contains("dependency graph cycle") || t.contains("PropagatedPanic")) {
+                            out.push(viol("wrong-panic", cx.idx, format!("get{key:?}: {t} (expected a cycle panic)")));
+                        }
+                    }
+                    (Err(p), Err(RPanic::Diverge)) => {
+                        let t = p.text();
+                        if !(t.contains("too many cycle iterations") || t.contains("PropagatedPanic")) {
+                            out.push(viol("wrong-panic", cx.idx, format!("get{key:?}: {t} (expected the bounded-iteration panic)")));
+                        }
+                    }
                     (Ok(g), Ok(w)) => {
                         if let Err(e) = got_matches(g, w) {
                             out.push(viol("value-mismatch", cx.idx, format!("get{key:?}: {e}")));
@@ -48,6 +61,11 @@ impl Oracle for ValueOracle {
                     (Err(p), Err(RPanic::SpecifyTwice)) => {
                         if !p.text().contains("cannot call `specify` twice") {
                             out.push(viol("wrong-panic", cx.idx, format!("get{key:?}: {} (expected specify-twice)", p.text())));
+                        }
+                    }
+                    (Err(p), Err(RPanic::SpecifyForeign)) => {
+                        if !p.text().contains("can only use `specify` on salsa structs created during the current tracked fn") {
+                            out.push(viol("wrong-panic", cx.idx, format!("get{key:?}: {} (expected specify-foreign)", p.text())));
                         }
                     }
                     (Err(_), Err(_)) => {}
